@@ -275,3 +275,24 @@ Example C15_tree_links_only_in_subcommand :
   strip_tree strip (fst (build tr_top [])) (fst (build ex_decls ex_links)) sFit tr_cfg
   = VMap [(sS, VInt 3); (sFit, VMap [(sA, VInt 5); (sB, VInt 7)])].
 Proof. split; [exact tr_no_top_links|split; [exact tr_finish|exact tr_dump]]. Qed.
+
+(* subcommand-env-defaults-stale-target: re-loading the dump of a parser tree through the top parser (default_env)
+   is rejected although the first parse succeeded, when the subcommand's DEFAULT sources pushed through its links
+   give a target a value of the wrong type (guard of this finding class: stale_default_target, the function the judge
+   uses for class 4; reload_sub: Model/C15Tree.v). *)
+Theorem C15_subcommand_stale_target_refuted :
+  exists ds ls ds' ls' n pre cfg sub,
+    let p := fst (build ds ls) in
+    let q := fst (build ds' ls') in
+    finish_tree wfn [] p q n pre = Ok cfg /\
+    overlap_free (map al_link (p_links q)) = true /\
+    get (strip_tree strip p q n cfg) [n] = Some sub /\
+    stale_default_target wfn [] q = true /\
+    reload_sub wfn false q sub = Err EOther.
+Proof. exact stale_refuted. Qed.
+Print Assumptions C15_subcommand_stale_target_refuted.
+
+Example C15_subcommand_stale_target_repaired :
+  reload_sub wfn true (fst (build st_decls st_links)) (VMap [(sY, VInt 9)]) = Ok (VMap [(sY, VInt 9)]) /\
+  apply_links wfn (VMap [(sY, VInt 9)]) (p_links (fst (build st_decls st_links))) = Ok (VMap [(sY, VInt 9); (sA, VInt 9)]).
+Proof. exact st_fixed_reload. Qed.
